@@ -238,7 +238,7 @@ pub fn run(tier: &str) -> i32 {
             cfg.api_access = api;
             cfg.disable_if_not_synced = sync;
             let m = ChainModel { cfg, alpha, oracle: C14 };
-            let e = explore(&m, &Limits::new(2, if quick { 55 } else { 6000 }));
+            let e = explore(&m, &Limits::new(2, if quick { 300 } else { 6000 }));
             rep.absorb(
                 &format!("TREE+Hdr net={} theta={} n={} hdr_chains={:?}x{} api_access={} disable_if_not_synced={}", net, theta, n, lens, mh, api, sync),
                 e,
